@@ -289,3 +289,10 @@ package p2p
 //@   ensures [C11] hard-is-rejected: called(vres) && vres != nil && !(asVerr(vres) != nil && asVerr(vres).SoftFailure) ==> result == pubsub.ValidationReject
 //@   ensures [C11] undecodable-is-rejected: (called(xerr) && xerr != nil) ==> result == pubsub.ValidationReject
 //@   ensures [C11] verdict: result == pubsub.ValidationAccept || result == pubsub.ValidationIgnore || result == pubsub.ValidationReject
+
+// ---- peer queue (C18): a token on havePeer stands for one entry of the heap; the entry is there before its token
+//@ chaninv peerQueue.havePeer(m): true
+//@ func (*peerQueue).push(p, stat)
+//@   props C18
+//@   before Push [C18] entry-before-token: sent("peerQueue.havePeer") == old(sent("peerQueue.havePeer")) -- waitPop pops as soon as it holds a token: the heap entry must exist by then
+//@   ensures [C18] one-token-per-entry: sent("peerQueue.havePeer") == old(sent("peerQueue.havePeer")) + 1
